@@ -163,8 +163,46 @@ def rule_d(prog, rep):
     rep.check(okd, "R-C05-d", where, "exactly the entries of the new common value are deleted", "", "deletion is not guarded by coords[0] == new_common")
     # 2-D branch: per column complement
     two_d = [s for s in stores if any(c.op == "cmp" and c.args[0] == ">" and pol for c, pol in s.guards if tm.contains(c, lambda x: x.op == "attr" and x.args[1] == "shape"))]
-    okc = bool(two_d) and all(s.loops and s["index"].op == "tuple" and len(s["index"].args) == 2 and s["index"].args[1].op == "enumidx" for s in two_d)
-    rep.check(okc, "R-C05-d", where, "2-D branch: one complement per column, keyed (old common, column)", "", "the 2-D branch does not take the complement column by column")
+    # the column label is a position that runs over ALL columns - enumerate over the transposed mask (one item per column) or
+    # range(self.shape[1]) - and the rows stored under it come from that same column
+    if not two_d:
+        rep.undecided("R-C05-d", where, "2-D branch: one complement per column, keyed (old common, column)", "no store under a `len(self.shape) > 1` guard")
+    for s in two_d:
+        cons = "2-D branch: one complement per column, keyed (old common, column)"
+        ix = s["index"]
+        if not (s.loops and ix.op == "tuple" and len(ix.args) == 2):
+            rep.violated("R-C05-d", where, cons, "the 2-D branch stores under %s outside a per-column loop: the rows of all columns are filed under one key" % tm.show(ix)[:40],
+                         witness={"history": "2-D index, shift_common(v): to_array() differs afterwards"})
+            continue
+        col = ix.args[1]
+        shape1 = T("sub", T("attr", self_t, "shape"), tm.const(1))
+        mask_like = lambda m: m.op == "call" and tm.callee_name(m) in ("numpy.ones", "numpy.zeros", "numpy.full") and m.args[1] and m.args[1][0] == T("attr", self_t, "shape")
+        if col.op == "enumidx":
+            X = col.args[0]
+            per_column = X.op == "attr" and X.args[1] == "T" and mask_like(X.args[0])
+            same_item = tm.contains(s["value"], lambda x: x.op == "iter" and x.args[0] == X and x.args[1] == col.args[1])
+            data_dep = [tm.callee_name(x) for x in tm.walk(X) if x.op == "call" and tm.callee_name(x) in ("numpy.split", "numpy.array_split", "numpy.unique", "numpy.flatnonzero", "numpy.nonzero", "numpy.where", ".nonzero")]
+            if per_column and same_item:
+                rep.proved("R-C05-d", where, cons, "enumerate(<mask of shape self.shape>.T), rows taken from the same item")
+            elif data_dep:
+                rep.violated("R-C05-d", where, cons, "the labels are positions in %s(...), whose number of items depends on the data (one per column that HAS rows at the old common value), not on shape[1]: "
+                             "a column without such rows shifts the label of every later column, and the last one's rows are never stored" % data_dep[0],
+                             witness={"history": "2-D index whose column 0 never takes the common value: shift_common(v) files column 1's old-common rows under column 0"})
+            else:
+                rep.undecided("R-C05-d", where, cons, "iterable %s not recognised as one item per column" % tm.show(X)[:60])
+        elif col.op == "iter" and col.args[0].op == "call" and tm.callee_name(col.args[0]) == "builtins.range" and col.args[0].args[1] == (shape1,):
+            # range(self.shape[1]): the rows must be the column `col` of the mask
+            sel = tm.contains(s["value"], lambda x: x.op == "sub" and mask_like(x.args[0]) and x.args[1].op == "tuple" and len(x.args[1].args) == 2 and x.args[1].args[1] == col)
+            if sel:
+                rep.proved("R-C05-d", where, cons, "for col in range(self.shape[1]): rows of mask[:, col]")
+            else:
+                rep.undecided("R-C05-d", where, cons, "rows stored under column `col` are not recognised as column `col` of the mask")
+        elif col.op in ("dkey", "dval") or (col.op == "iter" and tm.contains(col.args[0], lambda x: x.op == "alloc" or (x.op == "call" and (tm.callee_name(x) or "") in (".keys", ".items", "builtins.sorted", "builtins.set")))):
+            rep.violated("R-C05-d", where, cons, "the column labels are the keys of a collection built from the stored entries (%s): a column that stores no entry - every row at the old common value - is never visited, "
+                         "so its rows are not written out and read as the NEW common value afterwards" % tm.show(col)[:40],
+                         witness={"history": "2-D index with one column entirely at the common value: shift_common(v) turns that column into v"})
+        else:
+            rep.undecided("R-C05-d", where, cons, "column label %s not recognised" % tm.show(col)[:50])
 
 
 def main(tier):
